@@ -14,7 +14,8 @@ THEOREMS = {'C01': ['Cctz.C01.breakTime_table', 'Cctz.C01.breakTime_shift', 'Cct
             'C10': ['Cctz.C10.saturate_max', 'Cctz.C10.saturate_max_small', 'Cctz.C10.saturate_min', 'Cctz.C10.saturate_min_small',
                     'Cctz.C10.max_roundtrip', 'Cctz.C10.min_roundtrip', 'Cctz.C10.saturate_max_needs_time_bound',
                     'Cctz.C10Safe.makeTime_ok', 'Cctz.C10Safe.convert_ok', 'Cctz.C10Safe.transitions_ok', 'Cctz.C10Safe.results_in_range',
-                    'Cctz.C10Safe.breakTime_ok_partial', 'Cctz.C10Safe.breakTime_ok_below_max', 'Cctz.C10Safe.breakTime_ok_nonextended', 'Cctz.C10Safe.breakTime_ok_counterexample'],
+                    'Cctz.C10Safe.breakTime_ok_partial', 'Cctz.C10Safe.breakTime_ok_below_max', 'Cctz.C10Safe.breakTime_ok_nonextended', 'Cctz.C10Safe.breakTime_ok_counterexample',
+                    'Cctz.C10Check.checker_sound', 'Cctz.C10Check.checker_complete', 'Cctz.C10Check.checked_zone_safe', 'Cctz.C10Check.checked_zone_results_in_range'],
             'C11': ['Cctz.C11.nextTransition_spec', 'Cctz.C11.prevTransition_spec', 'Cctz.C11.ends', 'Cctz.C11.no_change', 'Cctz.C11.chain', 'Cctz.C11.constants'],
             'C14': ['Cctz.C14.breakTime_hint_irrelevant', 'Cctz.C14.makeTime_hint_irrelevant', 'Cctz.C14.convert_hint_irrelevant', 'Cctz.C14.history_irrelevant']}
 K400 = Z.K400
@@ -475,7 +476,7 @@ def extreme_civils(rng, n):
 
 
 def run_C10(chk):
-    chk.prepare_model(['Cctz.Properties.C10', 'Cctz.Properties.C10Safe'], THEOREMS['C10'])
+    chk.prepare_model(['Cctz.Properties.C10', 'Cctz.Properties.C10Safe', 'Cctz.Properties.C10Check'], THEOREMS['C10'])
     exe = chk.harness('san')
     scale = chk.tier if not chk.broken else 'thorough'
     if exe is None or not getattr(chk, 'driver_ok', False):
@@ -491,6 +492,7 @@ def run_C10(chk):
         b = [load_line(i, zn)]
         for t in ts: b += ['bt %s %d' % (zid(i), t), 'nt %s %d' % (zid(i), t), 'pt %s %d' % (zid(i), t)]
         for c in cs: b += ['mt %s %s' % (zid(i), C.fmt(c)), 'cv %s %s' % (zid(i), C.fmt(c))]
+        b.append(preds_line(i))
         blocks.append(b); meta.append((zn, ts, cs))
     for k, off in enumerate(fixed):
         i = len(zones) + k
